@@ -167,9 +167,9 @@ where `WFq` = `WF` without `noReexport`.  Proved below
 * with the restriction `noReexport` (`Restricted`), and
 * for the names that do not involve an INHERITED member (`pyOwn`: every attribute step through a class
   finds the attribute in that class's own namespace — exactly the names `vars()` reports).  Projects
-  may contain base classes; for names that go through inheritance the statement is FALSE on the
-  current tree (`resolve_sound_bases_counterexample` below; an earlier defect of the same family was
-  fixed as b8619e6).
+  may contain base classes; for names that go through inheritance the statement was false until
+  d230b6e (`resolve_sound_bases_counterexample` below; an earlier defect of the same family was fixed as
+  b8619e6) and is not proved here (it needs the soundness of base-class resolution at visit time).
 Nothing else is assumed: that the analysis of a `WF` project raises no registry exception, handles no
 duplicate definition, fails no assertion and does not run out of fuel is `run_clean`
 (PdProps/C04Clean.lean), for every processing order.
@@ -522,14 +522,60 @@ end Imports
 namespace Imports
 open Registry
 
-/-! ## base classes: the full statement is still false
+/-! ## base classes: names that go through an inherited member
 
-For names that go through an INHERITED member (`pyOwn = false`) soundness FAILS on the current tree:
-`Class.find`, which `expandName` uses for inherited members, only looks at the `contents` of the classes
-of the MRO, never at the names their bodies import.  An earlier base that binds the name by an import is
-skipped, a later base that defines it wins; Python takes the first class of `__mro__` whose namespace
-has the name.  (Finding `unsound:inherited-attribute:base-import-skipped`, replayed on the real pydoctor
-and CPython by harness/props/c04.py; proposed fix fixes/C04-inherited-lookup-sees-base-imports.diff.) -/
+HISTORY.  Until commit d230b6e soundness FAILED for such names: `Class.find`, which `expandName` used for
+inherited members, only looked at the `contents` of the classes of the MRO, never at the names their
+bodies import.  An earlier base that binds the name by an import was skipped, a later base that defines
+it won; Python takes the first class of `__mro__` whose namespace has the name.  (Finding
+`unsound:inherited-attribute:base-import-skipped`, found with this model, replayed on the real pydoctor
+and CPython by harness/props/c04.py; fixed by fixes/C04-inherited-lookup-sees-base-imports.diff = /repo
+d230b6e.)  `expandLoopOld` is the loop of `expandName` as it was before that commit. -/
+
+/-- `Names.expandLoop` before d230b6e: the inherited step is `Class.find` (`Names.classFind`) -/
+def expandLoopOld (e : Names.Env) : Nat → Bool → List Name → Option Path
+  | _, _, [] => none
+  | obj, first, p :: rest =>
+    match Names.componentName e obj first p with
+    | none => none
+    | some fn =>
+      let fn' : Option (Path × Bool) :=
+        if fn = [p] && !first then
+          let inh : Path :=
+            match getObj e.st obj with
+            | some o =>
+              if o.cls = .cls then
+                match Names.classFind e obj p with
+                | some i => (path e.st i).getD [p]
+                | none => [p]
+              else [p]
+            | none => [p]
+          if inh = [p] then
+            match path e.st obj with
+            | some op => some (op ++ [p], true)
+            | none => none
+          else some (inh, false)
+        else some (fn, false)
+      match fn' with
+      | none => none
+      | some (full, true) => some (full ++ rest)
+      | some (full, false) =>
+        match Names.objFor e full with
+        | none => some (full ++ rest)
+        | some nxt =>
+          match rest with
+          | [] => some full
+          | _ :: _ => expandLoopOld e nxt false rest
+
+/-- `pdResolve` with the old inherited-member step (the `find_object` fall-back plays no role here) -/
+def pdResolveOld (proj : Project) (order : List Nat) (m : Nat) (cp : List Name) (name : Path) : Option Ident :=
+  let s := run proj order
+  match walk s.reg m cp with
+  | none => none
+  | some i =>
+    match expandLoopOld (finalEnv s) i true name with
+    | none => none
+    | some p => match Names.objFor (finalEnv s) p with | some j => identOf s.reg j | none => none
 
 /-- ```
 D.py   class K
@@ -543,11 +589,14 @@ def exBases : Project := [
                     .classDef ['B','2'] [] [.funcDef ['y']],
                     .classDef ['C'] [[['B']], [['B','2']]] []]⟩ ]
 
+/-- before d230b6e: `C.y` resolved to `M.B2.y`, Python binds `D.K` (inherited through the import in `B`);
+since d230b6e pydoctor agrees with Python on this name -/
 theorem resolve_sound_bases_counterexample :
     WF exBases [0, 1] = true ∧ (PyImp.run exBases [0, 1]).err = false ∧
     PyImp.pyOwn exBases [0, 1] 1 [] [['C'], ['y']] = false ∧
-    pdResolve exBases [0, 1] 1 [] [['C'], ['y']] = some (.dfn [['M'], ['B','2'], ['y']]) ∧
-    PyImp.pyDenotes exBases [0, 1] 1 [] [['C'], ['y']] = some (.dfn [['D'], ['K']]) := by
+    pdResolveOld exBases [0, 1] 1 [] [['C'], ['y']] = some (.dfn [['M'], ['B','2'], ['y']]) ∧
+    PyImp.pyDenotes exBases [0, 1] 1 [] [['C'], ['y']] = some (.dfn [['D'], ['K']]) ∧
+    pdResolve exBases [0, 1] 1 [] [['C'], ['y']] = some (.dfn [['D'], ['K']]) := by
   decide +kernel
 
 end Imports
